@@ -2,5 +2,15 @@
 
 package server
 
+import (
+	"context"
+	"net"
+)
+
 // verifYield is a verification hook; it is empty unless built with the tag "verif".
 func verifYield(string, *fsm) {}
+
+// verifDial is a verification hook; it dials unless built with the tag "verif".
+func verifDial(ctx context.Context, d *net.Dialer, network, address string) (net.Conn, error) {
+	return d.DialContext(ctx, network, address)
+}
